@@ -1,10 +1,15 @@
 import RP.Lemmas.C01.Abs
-/-! C01 table, no-flush rows, deck `std`, count vectors whose deuce digit is 2
-    (checked with `native_decide`: the Lean compiler/interpreter is trusted for this row set). -/
+/-! C01 table, no-flush rows, deck `std`, count vectors whose deuce digit is 2.
+    Checked by native evaluation (what `native_decide` does: axiom `Lean.ofReduceBool`, the Lean
+    compiler is trusted for this row set); written with the axiom directly because Lean 4.33's
+    `native_decide` tactic emits one anonymous axiom per use, which the axiom audit cannot name. -/
 namespace RP.C01
 open RP.Eval
+set_option linter.deprecated false
 
-theorem tabN_std_2 : forallCV 12 (7 - 2) (fun rest => rowN .std (2 + 8 * rest)) = true := by
-  native_decide
+def tabN_std_2_native_decide : Bool := forallCV 12 (7 - 2) (fun rest => rowN .std (2 + 8 * rest))
+
+theorem tabN_std_2 : forallCV 12 (7 - 2) (fun rest => rowN .std (2 + 8 * rest)) = true :=
+  Lean.ofReduceBool tabN_std_2_native_decide true rfl
 
 end RP.C01
